@@ -305,7 +305,7 @@ theorem os_releases_everything (k : KState) (rev : Bool) :
 /-! ### kanata reports idle once everything is at rest -/
 
 /-- **idle_when_at_rest** (full): the converse of `idle_covers_time_driven`: with every time-driven
-component at rest and no sequence-custom state pending, kanata reports idle (when nothing waits for
+component at rest, no sequence-custom state pending and sequence mode off, kanata reports idle (when nothing waits for
 idleness, held plain keys do not prevent it). -/
 theorem idle_when_at_rest (k : KState)
     (h1 : k.layout.queue = []) (h2 : k.layout.waiting = none) (h3 : k.layout.extraWaiting = [])
@@ -315,7 +315,8 @@ theorem idle_when_at_rest (k : KState)
     (h11 : k.hscroll = none) (h12 : k.moveV = none) (h13 : k.moveH = none)
     (h14 : k.macroOnPressCancelDuration = 0) (h15 : k.capsWord = none) (h16 : k.vkeysPendingRelease = [])
     (h17 : k.waitingForIdle = []) (h18 : k.liveReloadRequested = false)
-    (h19 : ∀ s ∈ k.layout.states, match s with | .seqCustomPending _ | .seqCustomActive _ => False | _ => True) :
+    (h19 : ∀ s ∈ k.layout.states, match s with | .seqCustomPending _ | .seqCustomActive _ => False | _ => True)
+    (h20 : k.seq.st.active = false) :
     isIdle k = true := by
   have hst : (k.layout.states.any fun s => match s with
       | .seqCustomPending _ | .seqCustomActive _ => true
@@ -325,7 +326,7 @@ theorem idle_when_at_rest (k : KState)
     intro s hs
     have := h19 s hs
     cases s <;> simp_all
-  simp only [isIdle, h1, h2, h3, h4, h5, h6, h7, h8, h9, h10, h11, h12, h13, h14, h15, h16, h17, h18]
+  simp only [isIdle, h1, h2, h3, h4, h5, h6, h7, h8, h9, h10, h11, h12, h13, h14, h15, h16, h17, h18, h20]
   simp
   intro x hx
   have := h19 x hx
@@ -359,18 +360,18 @@ theorem custom_event_holds_one (i j : Nat) :
 
 /-- **at_rest_released_and_idle** (full, any configuration): when the layout is at rest
 (`LayoutAtRest`: no state, nothing queued, waiting, counting or playing) and the components kanata
-keeps outside the layout are at rest too, the layout asks for no key to be down (so the next
+keeps outside the layout are at rest too (sequence mode off included), the layout asks for no key to be down (so the next
 `handle_keystate_changes` releases whatever is still down at the OS: `os_releases_everything`), a
 further tick changes nothing in it (C07 `layout_tick_silent_when_quiet`) and `is_idle` holds. -/
 theorem at_rest_released_and_idle (k : KState) (h : Quiesce.LayoutAtRest k.layout)
     (h10 : k.scroll = none) (h11 : k.hscroll = none) (h12 : k.moveV = none) (h13 : k.moveH = none)
     (h14 : k.macroOnPressCancelDuration = 0) (h15 : k.capsWord = none) (h16 : k.vkeysPendingRelease = [])
-    (h17 : k.waitingForIdle = []) (h18 : k.liveReloadRequested = false) :
+    (h17 : k.waitingForIdle = []) (h18 : k.liveReloadRequested = false) (h20 : k.seq.st.active = false) :
     k.layout.keycodes = [] ∧ C07.QuietLayout k.layout ∧ isIdle k = true := by
   refine ⟨by simp [Layout.keycodes, h.states], ⟨h.queue, h.waiting, h.extra, h.osh, h.pause, h.seqs, h.tde, h.aq, ?_⟩, ?_⟩
   · intro st hst; rw [h.states] at hst; cases hst
   · exact idle_when_at_rest k h.queue h.waiting h.extra h.lpt h.osh h.pause h.seqs h.tde h.aq h10 h11 h12 h13
-      h14 h15 h16 h17 h18 (fun st hst => by rw [h.states] at hst; cases hst)
+      h14 h15 h16 h17 h18 (fun st hst => by rw [h.states] at hst; cases hst) h20
 
 /-! ### Quiescence on the one-shot fragment of C06 -/
 
